@@ -5,6 +5,7 @@ E(x +- h e_k), E(x +- h/2 e_k) through the real calc(), Richardson-extrapolated,
 the engine received.  Purity guard: base point re-evaluated after the sweep must be bit-identical.
 """
 import math
+import re
 import os
 
 import common
@@ -62,7 +63,7 @@ def bias_text(rng, cv, kind, val):
                 % (n, fnum(rng.uniform(0.2, 2.0)), fnum(rng.uniform(1.0, 3.0))))
     if kind == "opes":
         return ("opes_metad {\n  colvars %s\n  newHillFrequency 2\n  barrier %s\n  gaussianSigma %s\n  fixedGaussianSigma on\n}\n"
-                % (n, fnum(rng.uniform(3, 10)), fnum(max(0.1, abs(val[0]) * 0.1))))
+                % (n, fnum(rng.uniform(12, 20) if rng.random() < 0.75 else rng.uniform(3, 6)), fnum(max(0.1, abs(val[0]) * 0.1))))
     if kind == "histrest":
         nb = 6
         lo = min(val) - 1.0
@@ -113,13 +114,15 @@ def jitter(rng, pos, amp):
 def scenario_pass2(rng, case, val):
     bt = bias_text(rng, case["cv"], case["bias"], val)
     case["bias_text"] = bt
-    s = corpus.scenario_header(case["sysm"])
+    s = corpus.scenario_header(case["sysm"], extra="temp 300.0\ndt 1.0")
     s += "emit cv off\nemit bias off\n"
     s += "module\nconfig <<EOC\n" + case["cv"]["text"] + "\n" + bt + "EOC\ninit\n"
     pos = case["sysm"]["pos"]
     if case["bias"] in ("meta", "opes"):
         # deposit a few hills/kernels around the base geometry, then sweep at an odd step
-        for k in range(7):
+        # metadynamics adds no hill at a repeated ("continuing") step; OPES has no such rule, so its kernels are
+        # frozen by sweeping at an odd step (newHillFrequency 2)
+        for k in range(7 if case["bias"] == "meta" else 8):
             s += corpus.pos_line(jitter(rng, pos, 0.15)) + "\nstep\n"
         s += corpus.pos_line(pos) + "\n"
         s += "fdsweep %s cont\n" % fnum(H)
@@ -134,6 +137,40 @@ def scenario_pass2(rng, case, val):
         s += corpus.pos_line(pos) + "\nstep\n"
         s += "fdsweep %s cont\n" % fnum(H)
     return s
+
+
+def opes_shift_class(case, ev, f0, fscale):
+    """OPES kernels are truncated and shifted, G(r) = h (exp(-r^2/2) - exp(-rc^2/2)) for r < rc, but the code (as PLUMED does)
+    uses -G(r) r/sigma as their derivative instead of -h exp(-r^2/2) r/sigma.  Force and energy gradient then differ by one
+    common factor rho on every coordinate, rho - 1 of the order of exp(-rc^2/2) = exp(-barrier / ((1 - kT/barrier) kT)).
+    'known' if that pattern (and nothing else) explains the mismatch, 'cancel' if the factor is common but larger (kernel
+    forces cancelling), None otherwise."""
+    m = re.search(r"barrier (\S+)", case.get("bias_text", ""))
+    if not m:
+        return None
+    barrier = float(m.group(1))
+    kt = 0.001987191 * 300.0
+    vc = math.exp(-barrier / ((1.0 - kt / barrier) * kt))
+    if vc < 1e-7:
+        return None
+    rows = []
+    for row in ev["d"]:
+        k, d = row[0], row[1]
+        ep, em, ep2, em2 = [fl(x) for x in row[2:6]]
+        gh = (ep - em) / (2 * H)
+        gh2 = (ep2 - em2) / H
+        g = (4.0 * gh2 - gh) / 3.0
+        F = fl(f0[k][d])
+        if abs(gh2 - gh) > 1e-4 * fscale:
+            continue
+        rows.append((F, -g))
+    big = sorted(mg / F for F, mg in rows if abs(F) > 1e-2 * fscale)
+    if len(big) < 3:
+        return None
+    rho = big[len(big) // 2]
+    if any(abs(mg - rho * F) > 1e-6 * fscale + 2e-5 * abs(rho - 1.0) * fscale for F, mg in rows):
+        return None
+    return "known" if abs(rho - 1.0) <= 100.0 * vc else "cancel"
 
 
 def check_sweep(c, case, ev, files):
@@ -175,6 +212,16 @@ def check_sweep(c, case, ev, files):
         tol = 0.1 * spread + rnd + 1e-6 * fscale
         dev = abs(F + g)
         worst = max(worst, dev / fscale)
+        if dev > tol and case["bias"] == "opes":
+            verdict = opes_shift_class(case, ev, f0, fscale)
+            if verdict == "known":
+                c.violation("opes_kernel_shift_not_differentiated:" + case["ctype"],
+                            "atom %d coord %d: F=%.12g -dE/dx=%.12g; every coordinate shows the same ratio, within 100 x the kernel "
+                            "value at the cutoff" % (k + 1, d, F, -g), files, payload={"bias": case.get("bias_text"), "cv": case["cv"]["text"]})
+                return n_ok, n_inc
+            if verdict == "cancel":
+                c.inconc("opes low-barrier case with cancelling kernel forces: " + key_cfg)
+                return n_ok, n_inc + 1
         if dev > tol:
             # force vs -dE/dx disagree
             kind = "missing_force" if F == 0.0 else ("unjustified_force" if abs(g) <= tol else "wrong_force")
